@@ -9,7 +9,7 @@ from ref.statemodel import StateModel
 PID = "C04"
 LEVEL = "model_checking"
 RULE = (
-    "E1: every history of the action alphabet {set a/b to '0'/'1', attribute-only update of a (x=1/2), delete a/b, "
+    "E1: every history of the action alphabet {set a/b to '0'/'1', attribute-only update of a (x=1/2, x removed), delete a/b, "
     "set unwatched u} up to the tier's depth from a fixed initial state, for each of the trigger forms below and both "
     "decorator subsystems, settled after every action, plus burst schedules (the next action issued after k in {0,1,2} "
     "loop callbacks, at most D deviations); E2: breadth-first search over all reachable states of the 2-entity state "
@@ -29,7 +29,7 @@ MAXTASKS = 40
 A, B, U = "pyscript.a", "pyscript.b", "pyscript.u"
 INITIAL = {A: ("0", {"x": 1}), B: ("0", {}), U: ("0", {})}
 
-ACTIONS = ["A1", "A0", "AX2", "AX1", "AD", "B1", "B0", "BD", "U"]
+ACTIONS = ["A1", "A0", "AX2", "AX1", "AXD", "AD", "B1", "B0", "BD", "U"]
 
 
 def apply_model(model, act):
@@ -41,6 +41,8 @@ def apply_model(model, act):
         return model.set(A, None, {"x": 1}) if model.get(A) else model.set(A, "0", {"x": 1})
     if act == "AX2":
         return model.set(A, None, {"x": 2}) if model.get(A) else model.set(A, "0", {"x": 2})
+    if act == "AXD":  # drop the attribute (value kept)
+        return model.set(A, None, {}) if model.get(A) else None
     if act == "AD":
         return model.remove(A)
     if act == "B1":
@@ -64,6 +66,10 @@ def apply_world(w, model_before, act):
     elif act in ("AX1", "AX2"):
         cur = model_before.get(A)
         hs.async_set(A, cur[0] if cur else "0", {"x": int(act[2])})
+    elif act == "AXD":
+        cur = model_before.get(A)
+        if cur:
+            hs.async_set(A, cur[0], {})
     elif act == "AD":
         hs.async_remove(A)
     elif act in ("B1", "B0"):
@@ -227,7 +233,7 @@ def bounds(tier):
 def plan(tier, seed):
     shards = []
     d_set, d_burst, maxdev = (4, 3, 2) if tier == "thorough" else (3, 2, 1)
-    nsplit = 9 if tier == "thorough" else 3
+    nsplit = 10 if tier == "thorough" else 3
     for fi in range(len(FORMS)):
         for legacy in (False, True):
             for k in range(nsplit):
